@@ -172,6 +172,7 @@ def gen_plan(seed: int, tier: str) -> dict:
     reload_ = r.choice([None, None, "same_alias", "second_alias"])
     return {"pairings": pairings, "change": change, "hist": hist, "reload": reload_, "hist_target": r.randrange(8), "extra": {"alias": extra_alias, "rec": extra_rec, "db": {"gen": r.randrange(10**9), "config_num": 3, "state_num": 5, "broadcast_key": None}},
             "path": r.choice(["/simfs/pairing.json", "/simfs/conf dir/homekit/pairings.json"]),
+            "tmp_other_device": r.random() < 0.5,  # the system temp dir (tempfile without dir=) is another file system: rename gives EXDEV
             "cache_garble": r.randrange(10**9), "ops": None, "points_per_op": 40 if tier == "quick" else 300, "pseed": r.randrange(10**9)}
 
 
@@ -253,6 +254,7 @@ def execute(plan: dict, ch: Chooser) -> dict:
     loop = SimLoop()
     ctx.loop = loop
     fs = simfs.SimFS()
+    fs.tmp_other_device = bool(plan.get("tmp_other_device"))
     simfs.CUR.fs = fs
     path = plan["path"]
     cache_path = simfs.SimPath("/simfs/cache/charcache.json")
